@@ -2,6 +2,7 @@ package main
 
 import (
 	"fmt"
+	"os"
 	"sort"
 	"strings"
 
@@ -98,6 +99,17 @@ func fieldLines(f *descriptorpb.FieldDescriptorProto) []line {
 	if vc, ok := getExt[*validate.FieldConstraints](opts, validate.E_Field); ok && vc != nil {
 		required = vc.GetRequired()
 	}
+	keyFmt := ""
+	if fo, ok := getExt[*ext_j5pb.FieldOptions](opts, ext_j5pb.E_Field); ok && fo != nil {
+		if k := fo.GetKey(); k != nil {
+			switch t := k.Type.(type) {
+			case *ext_j5pb.KeyField_Format_:
+				keyFmt = t.Format.String()
+			case *ext_j5pb.KeyField_Pattern:
+				keyFmt = "pattern:" + t.Pattern
+			}
+		}
+	}
 	primary, tenant, hasTenant := false, "", false
 	fpkg, fent, hasForeign := "", "", false
 	if ko, ok := getExt[*ext_j5pb.PSMKeyFieldOptions](opts, ext_j5pb.E_Key); ok && ko != nil {
@@ -126,7 +138,7 @@ func fieldLines(f *descriptorpb.FieldDescriptorProto) []line {
 	}
 	out := []line{{
 		Tag:  2,
-		Strs: []string{f.GetName(), f.GetJsonName(), strings.TrimPrefix(f.GetTypeName(), "."), kind, tenant, fpkg, fent},
+		Strs: []string{f.GetName(), f.GetJsonName(), strings.TrimPrefix(f.GetTypeName(), "."), kind, tenant, fpkg, fent, keyFmt},
 		Nums: []uint64{uint64(f.GetNumber()), uint64(f.GetType()), b2n(f.GetLabel() == descriptorpb.FieldDescriptorProto_LABEL_REPEATED),
 			b2n(required), b2n(flatten), b2n(f.OneofIndex != nil && !optional), b2n(primary), b2n(hasTenant), b2n(filterable),
 			b2n(hasForeign), b2n(optional)},
@@ -137,7 +149,50 @@ func fieldLines(f *descriptorpb.FieldDescriptorProto) []line {
 	return out
 }
 
+// comments maps a SourceCodeInfo path (as "4.0.2.1") to the leading comment at that location.
+type comments map[string]string
+
+func pathKey(path []int32) string {
+	parts := make([]string, len(path))
+	for i, p := range path {
+		parts[i] = fmt.Sprint(p)
+	}
+	return strings.Join(parts, ".")
+}
+
+func sub(path []int32, more ...int32) []int32 {
+	out := make([]int32, 0, len(path)+len(more))
+	out = append(out, path...)
+	return append(out, more...)
+}
+
+// commentLine: tag 14 [leading comment] [] directly after the line of the element that carries it
+// (descriptions of the j5s source become leading comments: commentSet in j5convert/builders.go)
+func (c comments) line(path []int32) []line {
+	if t, ok := c[pathKey(path)]; ok && t != "" {
+		return []line{{Tag: 14, Strs: []string{t}, Nums: []uint64{}}}
+	}
+	return nil
+}
+
+func fileComments(f *descriptorpb.FileDescriptorProto) comments {
+	out := comments{}
+	for _, loc := range f.GetSourceCodeInfo().GetLocation() {
+		if loc.LeadingComments != nil && os.Getenv("VERIF_PROBE_COMMENTS") != "" {
+			fmt.Printf("    comment %s %v %q\n", f.GetPackage(), loc.Path, loc.GetLeadingComments())
+		}
+		if loc.LeadingComments != nil {
+			out[pathKey(loc.Path)] = loc.GetLeadingComments()
+		}
+	}
+	return out
+}
+
 func msgLines(prefix string, file int, m *descriptorpb.DescriptorProto) []line {
+	return msgLinesC(prefix, file, m, nil, nil)
+}
+
+func msgLinesC(prefix string, file int, m *descriptorpb.DescriptorProto, cm comments, path []int32) []line {
 	full := prefix + "." + m.GetName()
 	psmEntity, psmPart := "", uint64(0)
 	var opts proto.Message
@@ -153,11 +208,14 @@ func msgLines(prefix string, file int, m *descriptorpb.DescriptorProto) []line {
 		isOneof = mo.GetOneof() != nil
 	}
 	out := []line{{Tag: 1, Strs: []string{full, psmEntity}, Nums: []uint64{uint64(file), psmPart, b2n(isOneof)}}}
-	for _, f := range m.Field {
-		out = append(out, fieldLines(f)...)
+	for i, f := range m.Field {
+		fl := fieldLines(f)
+		out = append(out, fl[0])
+		out = append(out, cm.line(sub(path, 2, int32(i)))...)
+		out = append(out, fl[1:]...)
 	}
-	for _, n := range m.NestedType {
-		out = append(out, msgLines(full, file, n)...)
+	for i, n := range m.NestedType {
+		out = append(out, msgLinesC(full, file, n, cm, sub(path, 3, int32(i)))...)
 	}
 	// enums nested in the message (inline `enum { ... }` fields), after its nested messages
 	for _, e := range m.EnumType {
@@ -170,6 +228,10 @@ func msgLines(prefix string, file int, m *descriptorpb.DescriptorProto) []line {
 }
 
 func svcLines(pkgName string, file int, s *descriptorpb.ServiceDescriptorProto) []line {
+	return svcLinesC(pkgName, file, s, nil, nil)
+}
+
+func svcLinesC(pkgName string, file int, s *descriptorpb.ServiceDescriptorProto, cm comments, loc []int32) []line {
 	l := line{Tag: 6, Strs: []string{pkgName + "." + s.GetName(), "", "", ""}, Nums: []uint64{uint64(file), 0, 0}}
 	var opts proto.Message
 	if s.Options != nil {
@@ -261,8 +323,9 @@ func dumpFiles(pkg string, files []protoreflect.FileDescriptor) (*dumped, error)
 	})
 	for _, f := range d.Files {
 		idx := fileIndex(pkg, f.GetPackage())
-		for _, m := range f.MessageType {
-			d.Lines = append(d.Lines, msgLines(f.GetPackage(), idx, m)...)
+		cm := fileComments(f)
+		for i, m := range f.MessageType {
+			d.Lines = append(d.Lines, msgLinesC(f.GetPackage(), idx, m, cm, []int32{4, int32(i)})...)
 		}
 		for _, e := range f.EnumType {
 			d.Lines = append(d.Lines, line{Tag: 4, Strs: []string{f.GetPackage() + "." + e.GetName()}, Nums: []uint64{}})
@@ -270,8 +333,49 @@ func dumpFiles(pkg string, files []protoreflect.FileDescriptor) (*dumped, error)
 				d.Lines = append(d.Lines, line{Tag: 5, Strs: []string{v.GetName()}, Nums: []uint64{uint64(v.GetNumber())}})
 			}
 		}
-		for _, s := range f.Service {
-			d.Lines = append(d.Lines, svcLines(f.GetPackage(), idx, s)...)
+		for i, s := range f.Service {
+			d.Lines = append(d.Lines, svcLinesC(f.GetPackage(), idx, s, cm, []int32{6, int32(i)})...)
+		}
+	}
+	// the comments of the elements that are not fields (tag 16: [element full name; comment]), after
+	// all structural lines, in descriptor order: per file the messages (pre-order: the message, its
+	// nested messages, its nested enums and their values), the enums with their values, the services
+	// with their methods
+	for _, f := range d.Files {
+		cm := fileComments(f)
+		note := func(name string, path []int32) {
+			if t, ok := cm[pathKey(path)]; ok && t != "" {
+				d.Lines = append(d.Lines, line{Tag: 16, Strs: []string{name, t}, Nums: []uint64{}})
+			}
+		}
+		var walkMsg func(prefix string, m *descriptorpb.DescriptorProto, path []int32)
+		walkEnum := func(prefix string, e *descriptorpb.EnumDescriptorProto, path []int32) {
+			note(prefix+"."+e.GetName(), path)
+			for j, v := range e.Value {
+				note(prefix+"."+e.GetName()+"."+v.GetName(), sub(path, 2, int32(j)))
+			}
+		}
+		walkMsg = func(prefix string, m *descriptorpb.DescriptorProto, path []int32) {
+			full := prefix + "." + m.GetName()
+			note(full, path)
+			for i, n := range m.NestedType {
+				walkMsg(full, n, sub(path, 3, int32(i)))
+			}
+			for i, e := range m.EnumType {
+				walkEnum(full, e, sub(path, 4, int32(i)))
+			}
+		}
+		for i, m := range f.MessageType {
+			walkMsg(f.GetPackage(), m, []int32{4, int32(i)})
+		}
+		for i, e := range f.EnumType {
+			walkEnum(f.GetPackage(), e, []int32{5, int32(i)})
+		}
+		for i, sv := range f.Service {
+			note(f.GetPackage()+"."+sv.GetName(), []int32{6, int32(i)})
+			for j, m := range sv.Method {
+				note(f.GetPackage()+"."+sv.GetName()+"."+m.GetName(), []int32{6, int32(i), 2, int32(j)})
+			}
 		}
 	}
 	return d, nil
